@@ -1459,7 +1459,12 @@ class AttrParser(BaseParser):
         if isinstance(type, AnyFloat):
             if is_hexadecimal_token:
                 assert isinstance(value, int)
-                raw = value.to_bytes(type.compile_time_size, "little")
+                try:
+                    raw = value.to_bytes(type.compile_time_size, "little")
+                except OverflowError:
+                    self.raise_error(
+                        f"hexadecimal float constant out of range for type {type}"
+                    )
                 return FloatAttr(next(type.iter_unpack(raw)), type)
             return FloatAttr(float(value), type)
 
